@@ -1,0 +1,15 @@
+//go:build verif
+
+// Contracts for package pe, checked by /verif/govc (comment-only; not part of any normal build).
+
+package pe
+
+// ---- C19 / C12: a schema-valid submission requirement may leave count, min and max unset ----
+//@ func apply
+//@   prop C12 C19
+//@   safety
+//@   nullable Count, Min, Max
+//@   loop 1 invariant true
+//@   loop 2 invariant true
+//@   loop 3 invariant true
+//@   loop 4 invariant true
